@@ -86,6 +86,44 @@ Theorem C11_vfork_sample_legal : legal_progT sample_vfork = true.
 Proof. exact sample_vfork_legal. Qed.
 Print Assumptions C11_vfork_sample_legal.
 
+(* vfork under filters: idx (all shadow-stack entries) and record_idx (recorded ones) are separate numbers as
+   soon as a filter leaves a library call - vfork itself or one below it - unrecorded.  For EVERY shadow stack of
+   the calling thread (any mix of recorded / unrecorded entries), every vfork entry and everything the child
+   does on the shared array, the first hook the calling thread runs in the parent gives it back exactly the
+   state it had when it entered vfork: idx, record_idx and every entry (model of prepare_vfork /
+   mcount_restore_vfork on the rstack array, Model Part 1c). *)
+Theorem C11_vfork_restore_exact : forall pid cpid thr t e ops t' sv',
+  0 < pid -> cpid <> pid ->
+  vsection vrestore pid cpid thr t e ops = Some (t', sv') ->
+  v_idx t' = v_idx (vpush t e) /\ v_ridx t' = v_ridx (vpush t e) /\
+  (forall i, i < v_idx (vpush t e) -> v_arr t' i = v_arr (vpush t e) i) /\ sv' = vsaved0.
+Proof. exact vfork_restore_exact. Qed.
+Print Assumptions C11_vfork_restore_exact.
+
+(* the restore happens only on the thread that called vfork (fix 7e6b323); the code as found let any thread of
+   the parent process take the saved state *)
+Theorem C11_vfork_other_thread_untouched : forall pid thr t sv, thr <> s_thr sv -> vrestore pid thr t sv = (t, sv).
+Proof. exact vfork_other_thread_untouched. Qed.
+Print Assumptions C11_vfork_other_thread_untouched.
+
+Theorem C11_vfork_legacy_other_thread_refuted :
+  let sv := {| s_pid := 7; s_thr := 1; s_idx := 3; s_ridx := 3; s_ent := {| v_id := 9; v_norec := false |} |} in
+  let t2 := vpush vth0 {| v_id := 5; v_norec := false |} in
+  vshape (fst (vrestore_legacy 7 2 t2 sv)) = (3, 3, [false; false; false]) /\ vshape t2 = (1, 1, [false]) /\
+  vshape (fst (vrestore 7 2 t2 sv)) = (1, 1, [false]).
+Proof. exact vfork_legacy_other_thread_refuted. Qed.
+Print Assumptions C11_vfork_legacy_other_thread_refuted.
+
+(* non-vacuity (vfork rejected by -N vfork below two recorded callers) and the seeded slip `idx = saved record_idx` *)
+Theorem C11_vfork_unrecorded_witness :
+  let t := vpush (vpush vth0 {| v_id := 1; v_norec := false |}) {| v_id := 2; v_norec := false |} in
+  let e := {| v_id := 3; v_norec := true |} in
+  let ops := [VPush {| v_id := 4; v_norec := false |}; VPush {| v_id := 5; v_norec := true |}] in
+  option_map (fun p => vshape (fst p)) (vsection vrestore 7 8 1 t e ops) = Some (3, 2, [false; false; true]) /\
+  option_map (fun p => vshape (fst p)) (vsection vrestore_seeded 7 8 1 t e ops) = Some (2, 2, [false; true]).
+Proof. exact vfork_unrecorded_witness. Qed.
+Print Assumptions C11_vfork_unrecorded_witness.
+
 (* End to end on the model ("the trace closes the abandoned calls or marks the jump so that replay shows
    all later calls at their true depth"): for every legal program the stream of records libmcount has
    written - lazily flushed ENTRY records, EXIT records of the frames dropped by exception unwinding, the
